@@ -115,28 +115,53 @@ func specVariant(rng *rand.Rand, k int) (*common.Spec, string) {
 		// reads the wrong one of two equal constants, or replaces a floor division by a test that only agrees when one
 		// constant divides the other, is indistinguishable under the presets.
 		name = "apart"
-		pair := [][2]uint64{{6, 20}, {8, 20}, {6, 64}, {6, 20}}[rng.Intn(4)]
-		sp.SLOTS_PER_EPOCH = common.Slot(pair[0])           // does NOT divide SLOTS_PER_HISTORICAL_ROOT:
-		sp.SLOTS_PER_HISTORICAL_ROOT = common.Slot(pair[1]) // batch period floor(SPHR/SPE) = 3, 2 or 10 epochs
-		sp.EPOCHS_PER_HISTORICAL_VECTOR = 10                // minimal: equal to EPOCHS_PER_SLASHINGS_VECTOR (64)
-		sp.EPOCHS_PER_SLASHINGS_VECTOR = 7                  // odd: the halfway mark is a floor too
-		sp.EPOCHS_PER_ETH1_VOTING_PERIOD = 5                // 5*SPE slots, unrelated to SPHR
-		sp.EPOCHS_PER_SYNC_COMMITTEE_PERIOD = 4             // periods 4 / 5 / floor(SPHR/SPE) pairwise different
-		sp.SYNC_COMMITTEE_SIZE = 10
-		sp.MIN_EPOCHS_TO_INACTIVITY_PENALTY = 2 // minimal: 4 = MAX_SEED_LOOKAHEAD = EPOCHS_PER_ETH1_VOTING_PERIOD
-		sp.MAX_SEED_LOOKAHEAD = 6
-		sp.MIN_VALIDATOR_WITHDRAWABILITY_DELAY = 9
+		// slots: SLOTS_PER_EPOCH does NOT divide SLOTS_PER_HISTORICAL_ROOT (batch period = floor = 2, 2, 10, 3 epochs);
+		// MIN_ATTESTATION_INCLUSION_DELAY is not 1 (7/20/3 and 8/20/3: no constant divides another)
+		triple := [][3]uint64{{7, 20, 3}, {8, 20, 3}, {6, 64, 2}, {6, 20, 3}}[rng.Intn(4)]
+		sp.SLOTS_PER_EPOCH = common.Slot(triple[0])
+		sp.SLOTS_PER_HISTORICAL_ROOT = common.Slot(triple[1])
+		sp.MIN_ATTESTATION_INCLUSION_DELAY = common.Slot(triple[2])
+		// epochs: pairwise coprime, none equal to another
+		sp.MIN_SEED_LOOKAHEAD = 2
+		sp.MIN_EPOCHS_TO_INACTIVITY_PENALTY = 3
+		sp.EPOCHS_PER_SYNC_COMMITTEE_PERIOD = 5
+		sp.EPOCHS_PER_SLASHINGS_VECTOR = 7 // odd: the halfway mark is a floor too
+		sp.EPOCHS_PER_ETH1_VOTING_PERIOD = 11
+		sp.MAX_SEED_LOOKAHEAD = 13
+		sp.MIN_VALIDATOR_WITHDRAWABILITY_DELAY = 17
+		sp.EPOCHS_PER_HISTORICAL_VECTOR = 19
+		sp.SHARD_COMMITTEE_PERIOD = 23
+		// counts
 		sp.MIN_PER_EPOCH_CHURN_LIMIT = 2
-		sp.CHURN_LIMIT_QUOTIENT = 6
 		sp.MAX_PER_EPOCH_ACTIVATION_CHURN_LIMIT = 3
-		sp.TARGET_COMMITTEE_SIZE = 3
-		sp.MAX_COMMITTEES_PER_SLOT = 3
-		// electra's MIN_ACTIVATION_BALANCE stays 32 ETH: hysteresis / activation code reading it instead shows
+		sp.TARGET_COMMITTEE_SIZE = 5
+		sp.MAX_COMMITTEES_PER_SLOT = 7
+		sp.SYNC_COMMITTEE_SIZE = 11
+		sp.SHUFFLE_ROUND_COUNT = 9
+		// Gwei: electra's MIN_ACTIVATION_BALANCE stays 32 ETH (code reading it for MAX_EFFECTIVE_BALANCE shows);
+		// the increment is not 1 ETH and HYSTERESIS_QUOTIENT does not divide it
+		sp.EFFECTIVE_BALANCE_INCREMENT = 2_000_000_000
 		sp.MAX_EFFECTIVE_BALANCE = 40_000_000_000
 		sp.EJECTION_BALANCE = 17_000_000_000
-		sp.HYSTERESIS_QUOTIENT = 5
+		sp.HYSTERESIS_QUOTIENT = 9
 		sp.HYSTERESIS_DOWNWARD_MULTIPLIER = 2
-		sp.HYSTERESIS_UPWARD_MULTIPLIER = 6
+		sp.HYSTERESIS_UPWARD_MULTIPLIER = 11
+		// quotients, factors, multipliers: the per-fork families all different (and permuted against the presets' order)
+		sp.BASE_REWARD_FACTOR = 48
+		sp.PROPOSER_REWARD_QUOTIENT = 5
+		sp.WHISTLEBLOWER_REWARD_QUOTIENT = 311
+		sp.CHURN_LIMIT_QUOTIENT = 7
+		sp.INACTIVITY_PENALTY_QUOTIENT = 7_000_003
+		sp.INACTIVITY_PENALTY_QUOTIENT_ALTAIR = 3_000_017
+		sp.INACTIVITY_PENALTY_QUOTIENT_BELLATRIX = 10_000_019
+		sp.MIN_SLASHING_PENALTY_QUOTIENT = 29
+		sp.MIN_SLASHING_PENALTY_QUOTIENT_ALTAIR = 53
+		sp.MIN_SLASHING_PENALTY_QUOTIENT_BELLATRIX = 31
+		sp.PROPORTIONAL_SLASHING_MULTIPLIER = 3
+		sp.PROPORTIONAL_SLASHING_MULTIPLIER_ALTAIR = 1
+		sp.PROPORTIONAL_SLASHING_MULTIPLIER_BELLATRIX = 2
+		sp.INACTIVITY_SCORE_BIAS = 5
+		sp.INACTIVITY_SCORE_RECOVERY_RATE = 13
 	}
 	return &sp, name
 }
@@ -587,11 +612,19 @@ func addPendingAttestations(rng *rand.Rand, sp *common.Spec, s *flat.State, pr p
 						if rng.Intn(6) == 0 {
 							a.Target.Root = rnd32(rng) // wrong target
 						}
-						maxDelay := s.Slot - slot
-						if maxDelay < 1 {
-							maxDelay = 1
+						// valid pending attestations: MIN_ATTESTATION_INCLUSION_DELAY <= delay <= SLOTS_PER_EPOCH, included by now
+						minDelay := uint64(sp.MIN_ATTESTATION_INCLUSION_DELAY)
+						maxDelay := min64(s.Slot-slot, spe)
+						if maxDelay < minDelay {
+							if minDelay > 1 {
+								continue // too young to have been included
+							}
+							maxDelay = minDelay
 						}
-						a.InclusionDelay = 1 + uint64(rng.Intn(int(min64(maxDelay, spe))))
+						a.InclusionDelay = minDelay + uint64(rng.Intn(int(maxDelay-minDelay+1)))
+						if rng.Intn(3) == 0 {
+							a.InclusionDelay = minDelay // the fastest inclusion (full reward, timely-head flag at the altair upgrade)
+						}
 						a.ProposerIndex = uint64(rng.Intn(len(s.Validators)))
 						out = append(out, a)
 					}
@@ -770,7 +803,7 @@ func gen(o hreg.Opts, w *bufio.Writer) error {
 			variant := []int{0, 4, 1, 2, 3}[i%5]
 			sp, spName := specVariant(rng, variant)
 			spe := uint64(sp.SLOTS_PER_EPOCH)
-			epoch := uint64([]int{0, 1, 2, 3, 5, 7, 8, 9, 15, 19, 23, 40}[rng.Intn(12)])
+			epoch := uint64([]int{0, 1, 2, 3, 5, 7, 8, 9, 10, 15, 19, 23, 40}[rng.Intn(13)])
 			if i%7 == 3 || (variant == 4 && i%2 == 0) {
 				// sit on a sync-committee / historical-batch boundary
 				per := uint64(sp.EPOCHS_PER_SYNC_COMMITTEE_PERIOD)
